@@ -32,7 +32,7 @@ def to_py_row(k):
     if t == 'slice':
         return slice(*k['v'])
     if t == 'ints':
-        return list(k['v'])
+        return np.array(k['v'], dtype=np.int64) if k.get('np') else list(k['v'])
     if t == 'mask':
         return np.array(k['v'], dtype=bool) if k.get('np', True) else list(k['v'])
     return Ellipsis
@@ -227,6 +227,12 @@ class Prop(common.PropertyCheck):
             N, D = rng.randrange(1, 6), rng.randrange(2, 6)
             atoms = [({'t': 'name', 'v': 'ch%d' % c} if rng.random() < 0.5 else {'t': 'pos', 'v': c - (D if rng.random() < 0.3 else 0)}) for c in rng.sample(range(D), rng.randrange(1, D + 1))]
             yield {'N': N, 'D': D, 'keys': [[self.rand_row(N), {'t': 'list', 'v': atoms, 'oneshot': ['gen', 'iter', 'reversed', 'map'][i % 4]}]], 'oneshot': True}
+        # event positions given as NumPy integer arrays of exactly N entries, all 0 or 1 (positions, not a mask)
+        for N in (1, 2, 3, 4):
+            for D in (1, 3):
+                for v in ([0] * N, [1 % N] * N, [(i % 2) % N for i in range(N)], [((i + 1) % 2) % N for i in range(N)]):
+                    yield {'N': N, 'D': D, 'keys': [[{'t': 'ints', 'v': v, 'np': True}, {'t': 'rowonly'}]], 'set': N % 2 == 0}
+                    yield {'N': N, 'D': D, 'keys': [[{'t': 'ints', 'v': v, 'np': True}, {'t': 'slice', 'v': [None, None, None]}]], 'set': N % 2 == 1}
         # names that are the text of a number ('1', '-1', ' 0 ', '00'): not channel names, hence refused (never taken as positions)
         for i, txt in enumerate(['0', '1', '-1', ' 0 ', '00', '2', '1.0', '+1']):
             for N, D in ((2, 3), (3, 2)):
@@ -376,7 +382,9 @@ class Prop(common.PropertyCheck):
                 # array items: a full block, and one value per addressed channel; plain array assignment with the column positions is the reference
                 if out.get('plain') and 'shape' in out['plain'] and len(out['plain']['shape']) >= 1 and 0 not in out['plain']['shape']:
                     shp = out['plain']['shape']
-                    items = {'block': (40000 + np.arange(int(np.prod(shp)))).reshape(shp)}
+                    items = {'block': (40000 + np.arange(int(np.prod(shp)))).reshape(shp),
+                             # scalars that are not Python integers (the events are 16-bit integers: the value is converted like plain NumPy assignment does)
+                             'scalar_float': 2.75, 'scalar_np_float': np.float64(7.9), 'scalar_np_int': np.int64(123), 'scalar_0d': np.array(5.5)}
                     if len(shp) == 2:
                         items['per_channel'] = 50000 + np.arange(shp[1])
                         items['per_event'] = (52000 + np.arange(shp[0])).reshape(shp[0], 1)
